@@ -133,6 +133,41 @@ def gen_label(labels, kind, rng, allow_absent=True):
     return ('null',)
 
 
+def gen_boolseries_ih(labels, rng):
+    """Boolean Series key whose own index is hierarchical (depth 2), for a depth-2 axis holding `labels`:
+    either a full product (from_product shares one leaf Index between the outer labels) laid over the axis'
+    outer labels and one group's inner labels, or an explicit tree of kept, dropped and foreign labels."""
+    outers = []
+    for t in labels:
+        if t[0] not in outers:
+            outers.append(t[0])
+    groups = {o: [t[1] for t in labels if t[0] == o] for o in outers}
+    if rng.random() < 0.6:
+        inners = list(groups[rng.choice(outers)])
+        if rng.random() < 0.3:
+            pool = []
+            for o in outers:
+                for x in groups[o]:
+                    if x not in pool:
+                        pool.append(x)
+            inners = rng.sample(pool, min(len(pool), max(1, len(inners))))
+        os_ = list(outers)
+        if rng.random() < 0.2:
+            rng.shuffle(os_)
+        pairs = [((o, i), rng.random() < 0.6) for o in os_ for i in inners]
+        return ('boolseries_ih', pairs, 'product', (tuple(os_), tuple(inners)))
+    os_ = list(outers)
+    rng.shuffle(os_)
+    pairs = []
+    for o in os_:
+        kept = [x for x in groups[o] if rng.random() < 0.85]
+        rng.shuffle(kept)
+        pairs.extend(((o, x), rng.random() < 0.6) for x in kept)
+    if not pairs:
+        pairs = [(labels[0], True)]
+    return ('boolseries_ih', pairs, 'labels', None)
+
+
 def _trunc(label, unit):
     return np.datetime64(label, unit)
 
@@ -213,6 +248,13 @@ def realize(desc):
         labs = [p[0] for p in desc[1]]
         idx = sf.Index(_label_array(labs)) if not any(isinstance(l, tuple) and False for l in labs) else None
         return sf.Series(np.array([p[1] for p in desc[1]], dtype=bool), index=_index_for(labs))
+    if k == 'boolseries_ih':
+        bools = np.array([p[1] for p in desc[1]], dtype=bool)
+        if desc[2] == 'product':
+            ih = sf.IndexHierarchy.from_product(*[list(lv) for lv in desc[3]])
+        else:
+            ih = sf.IndexHierarchy.from_labels([p[0] for p in desc[1]])
+        return sf.Series(bools, index=ih)
     if k == 'indexkey':
         return _index_for(desc[1])
     if k == 'serieskey':
@@ -307,7 +349,7 @@ def resolve_label(labels, desc):
         return Resolved(list(range(lo, hi - 1, step)))
     if k == 'bools':
         return resolve_positional(n, desc)
-    if k == 'boolseries':
+    if k in ('boolseries', 'boolseries_ih'):
         truth = {cs(l): b for l, b in desc[1]}
         return Resolved([i for i, l in enumerate(labels) if truth.get(cs(l), False)])
     if k == 'iloc':
